@@ -266,6 +266,54 @@ fn nondyadic_positions_hit_exactly(acc: &mut Acc) {
     }
 }
 
+/// glam vector properties (every lane holds a different value): at the delay, at every keyframe and after the end the
+/// keyframe's vector is produced lane for lane.
+#[derive(Animate, Clone, Debug, Default, PartialEq)]
+struct Lanes {
+    v2: glam::Vec2,
+    v3: glam::Vec3,
+    v4: glam::Vec4,
+    d4: glam::DVec4,
+    i4: glam::IVec4,
+    u4: glam::UVec4,
+    i3: glam::IVec3,
+}
+
+fn glam_lanes_at_keyframes(acc: &mut Acc) {
+    let mk = |b: f32| Lanes {
+        v2: glam::Vec2::new(b + 1.0, b + 2.0),
+        v3: glam::Vec3::new(b + 1.0, b + 2.0, b + 3.0),
+        v4: glam::Vec4::new(b + 1.0, b + 2.0, b + 3.0, b + 4.0),
+        d4: glam::DVec4::new(b as f64 + 1.5, b as f64 + 2.5, b as f64 + 3.5, b as f64 + 4.5),
+        i4: glam::IVec4::new(b as i32 + 1, b as i32 + 2, b as i32 + 3, b as i32 + 4),
+        u4: glam::UVec4::new(b as u32 + 1, b as u32 + 2, b as u32 + 3, b as u32 + 4),
+        i3: glam::IVec3::new(-(b as i32) - 1, -(b as i32) - 2, -(b as i32) - 3),
+    };
+    let frames = [mk(0.0), mk(100.0), mk(40.0)];
+    for (ti, &(delay, rep, reverse)) in [(0.0f32, Repeat::None, false), (0.5, Repeat::Times(1), false), (0.5, Repeat::None, true), (0.0, Repeat::Infinite, true)].iter().enumerate() {
+        let mut b = Lanes::timeline().duration_seconds(2.0).delay_seconds(delay).repeat(rep).reverse(reverse);
+        for (i, pos) in [0.0f32, 0.5, 1.0].iter().enumerate() {
+            let f = &frames[i];
+            b = b.keyframe(Lanes::keyframe(*pos).v2(f.v2).v3(f.v3).v4(f.v4).d4(f.d4).i4(f.i4).u4(f.u4).i3(f.i3));
+        }
+        let tl = b.build();
+        acc.timelines += 1;
+        // (time, keyframe index): forward 0 / 1 / 2 s into the cycle, reversing 0 / 0.5 / 1 s (and back)
+        let pts: Vec<(f32, usize)> = if reverse { vec![(0.0, 0), (delay, 0), (delay + 0.5, 1), (delay + 1.0, 2), (delay + 1.5, 1), (delay + 2.0, 0)] } else { vec![(0.0, 0), (delay, 0), (delay + 1.0, 1), (delay + 2.0, 2)] };
+        for (t, fi) in pts {
+            let mut got = Lanes::default();
+            tl.update(&mut got, t);
+            acc.evals += 1;
+            acc.exact_checks += 7;
+            if got != frames[fi] {
+                acc.sink.add("glam-lanes:keyframe-value-not-reached", (8u64 << 60) | (ti as u64) << 8 | fi as u64, || {
+                    (format!("delay {delay} s, {rep:?}, reverse {reverse}, cycle 2 s: at t = {t} got {:?}, the keyframe there is {:?}", got, frames[fi]), json!({"family": "glam-lanes", "timing": ti, "t": t}))
+                });
+            }
+        }
+    }
+}
+
 /// Wide (2^j+1 keyframes) and tall (all subsets of a 9-point grid) families of common.rs, evaluated at
 /// exactly every keyframe position (forward, reverse and repeated pass).
 fn wide_tall_pass(thorough: bool) -> Acc {
@@ -408,6 +456,7 @@ pub fn run(run: Run) -> ! {
     extreme_values(&mut acc);
     builtin_easings_at_keyframes(&mut acc);
     nondyadic_positions_hit_exactly(&mut acc);
+    glam_lanes_at_keyframes(&mut acc);
     let wt = wide_tall_pass(run.is_thorough());
     let wt_evals = wt.evals;
     acc.sink.merge(wt.sink);
@@ -421,7 +470,7 @@ pub fn run(run: Run) -> ! {
     cov.insert("traces_validated_against_impl".into(), json!(acc.evals));
     cov.insert("evaluations".into(), json!(acc.evals));
     cov.insert("distinct_nontrivial".into(), json!(acc.exact_checks));
-    cov.insert("rule".into(), json!(format!("keyframe lists of size 0..={nmax} with per-property distinct positions (same alphabet as C01, incl. the variant with the f64 property d in place of a below the largest size) x 13 dyadic timing configurations (incl. Times 0/1/2/3, Infinite, reverse) x {{no start, start_with(v*)}} x exact-hit times delay+cycle*(c+p) / reversing delay+cycle*(c+p/2), delay+cycle*(c+1-p/2) for all grid positions p and cycles c<=3, t in {{0,delay/2,delay}}, every forward-pass end, and 6 after-end times (next f32 after total .. f32::MAX); every timeline is additionally evaluated wrapped in MergedTimeline::from (bit-equal); a non-dyadic companion evaluates 336 repeating timelines (cycles 0.1..2.3, delays 0..1.3, Times 1..20, reverse) at exactly the reported duration() and the 8 f32 values after it: the terminal value must be shown; a whole-second companion (every cycle length 1..=64 s x delays 0, 1/2, 3 x Infinite/Times(1)/Times(3) x reverse, at exactly every cycle boundary and half cycle of the first four cycles, same exact oracle: the end of every forward pass shows 100%); an extreme-values companion (neighbouring keyframe values -f32::MAX / f32::MAX, -2^127 / 2^127 for f64, i32::MIN / 2^30, under all 13 timings at every exact-hit and after-end time); every built-in easing as default easing and as keyframe easing, evaluated at the delay, at every keyframe position of two cycles and after the end; keyframes at 16 non-dyadic positions (1% .. 90%) hit at the exactly representable time p x cycle (forward) / p x cycle / 2 (reversing) for power-of-two cycles; plus the WIDE family (2^j+1 keyframes at i/2^j, j in {{4,8,16}} quick / 1..=17 thorough, two property patterns) and the TALL family (every subset of size >= 2 of {{0,1/8,..,1}}) evaluated at exactly every keyframe position in the forward, reverse and repeated pass, with and without start_with; non-trivial = (evaluation, property) whose position coincides with exactly one keyframe of that property, compared exactly (int) / within 4 ulp (float)")));
+    cov.insert("rule".into(), json!(format!("keyframe lists of size 0..={nmax} with per-property distinct positions (same alphabet as C01, incl. the variant with the f64 property d in place of a below the largest size) x 13 dyadic timing configurations (incl. Times 0/1/2/3, Infinite, reverse) x {{no start, start_with(v*)}} x exact-hit times delay+cycle*(c+p) / reversing delay+cycle*(c+p/2), delay+cycle*(c+1-p/2) for all grid positions p and cycles c<=3, t in {{0,delay/2,delay}}, every forward-pass end, and 6 after-end times (next f32 after total .. f32::MAX); every timeline is additionally evaluated wrapped in MergedTimeline::from (bit-equal); a non-dyadic companion evaluates 336 repeating timelines (cycles 0.1..2.3, delays 0..1.3, Times 1..20, reverse) at exactly the reported duration() and the 8 f32 values after it: the terminal value must be shown; a whole-second companion (every cycle length 1..=64 s x delays 0, 1/2, 3 x Infinite/Times(1)/Times(3) x reverse, at exactly every cycle boundary and half cycle of the first four cycles, same exact oracle: the end of every forward pass shows 100%); an extreme-values companion (neighbouring keyframe values -f32::MAX / f32::MAX, -2^127 / 2^127 for f64, i32::MIN / 2^30, under all 13 timings at every exact-hit and after-end time); every built-in easing as default easing and as keyframe easing, evaluated at the delay, at every keyframe position of two cycles and after the end; keyframes at 16 non-dyadic positions (1% .. 90%) hit at the exactly representable time p x cycle (forward) / p x cycle / 2 (reversing) for power-of-two cycles; glam vector properties (Vec2/3/4, DVec4, IVec3/4, UVec4, a different value in every lane) at their keyframes; plus the WIDE family (2^j+1 keyframes at i/2^j, j in {{4,8,16}} quick / 1..=17 thorough, two property patterns) and the TALL family (every subset of size >= 2 of {{0,1/8,..,1}}) evaluated at exactly every keyframe position in the forward, reverse and repeated pass, with and without start_with; non-trivial = (evaluation, property) whose position coincides with exactly one keyframe of that property, compared exactly (int) / within 4 ulp (float)")));
     cov.insert("exhaustive".into(), json!(true));
     cov.insert("max_keyframes".into(), json!(nmax));
     cov.insert("after_end_constancy_groups".into(), json!(acc.after_end_groups));
@@ -431,10 +480,11 @@ pub fn run(run: Run) -> ! {
 }
 
 pub fn replay(case: &Value) -> bool {
-    if case["family"] == "builtin-easings-at-keyframes" || case["family"] == "non-dyadic-positions" {
+    if case["family"] == "builtin-easings-at-keyframes" || case["family"] == "non-dyadic-positions" || case["family"] == "glam-lanes" {
         let mut acc = Acc::default();
         builtin_easings_at_keyframes(&mut acc);
         nondyadic_positions_hit_exactly(&mut acc);
+        glam_lanes_at_keyframes(&mut acc);
         for (s, v) in &acc.sink.map {
             println!("{s}: {}", v.desc);
         }
